@@ -66,6 +66,7 @@ def run(ctx):
     residue_operators(ctx, g)
     modular_inverse(ctx, g)
     matrix_ops(ctx, g)
+    rational_reconstruction_contract(ctx, g)
     residues(ctx)
     modulus(ctx)
     pivot(ctx)
@@ -353,6 +354,138 @@ def matrix_ops(ctx, g):
         n += 1
         ctx.ob("T9-matrix-ops", d, "transpose", "ok" if not bad else "violation", "result[i][j] = self[j][i] for i < columns, j < rows" if not bad else bad)
     ctx.floor("matrix primitives checked", n, 8)
+
+
+def rational_reconstruction_contract(ctx, g):
+    """rational_reconstruction(s, h): Wang's half-extended Euclid on (h, s) with an unsigned cofactor and an alternating sign.  With the invariant
+        u1 = sign * s * v1   and   u = -sign * s * v   (mod h)
+    the loop, left as soon as u1^2 <= h, ends with sign * u1 / v1 = s (mod h), numerator and denominator below sqrt(h): the unique such fraction.
+    Decided by induction on sampled states (the update expressions are evaluated, nothing is run)"""
+    import random
+    ctx.clauses.append("rational reconstruction: (u, u1, v, v1, sign) from (h, s, 0, 1, 1); each step keeps u1 = sign*s*v1, u = -sign*s*v (mod h), shifts, flips the sign; exit at u1^2 <= h; result sign*u1 / v1 (T7, induction on sampled states)")
+    b = ctx.body("geometry::modular_solver::rational_reconstruction")
+    ctx.scan([b])
+    s_, h_ = ("param", 1, b.debug.get(1, "")), ("param", 2, b.debug.get(2, ""))
+    ret = strip(norm(b.local_origin(0), g))
+    bad = None
+    carried = None
+    if not (is_call(ret, "Ratio::<T>::new") and len(ret[2]) == 2):
+        bad = "the result is not a fraction built by Ratio::new"
+    else:
+        num = strip(fold_std_ops(ret[2][0]))
+        v1 = strip(ret[2][1])
+        if not (num[0] == "binop" and num[1] == "Mul" and v1[0] == "local"):
+            bad = "the result is not (sign * u1) / v1: %s" % show(ret, 1)[:60]
+        else:
+            a, c = strip(num[2]), strip(num[3])
+            loops = natural_loops(b)
+            lb = set()
+            for h__, bl_ in loops:
+                lb |= set(bl_)
+
+            def dd(x):
+                ds = [(dbb, strip(norm(d, g))) for dbb, d in b.all_defs_origins(x[1])]
+                return [d for dbb, d in ds if dbb not in lb], [d for dbb, d in ds if dbb in lb]
+            lit = lambda t: map_term(t, lambda y: y[2][0] if is_call(y, "From::from") and len(y[2]) == 1 and strip(y[2][0])[0] == "int" else (strip(y[2][0]) if is_call(y, "Clone::clone") else None))
+            # sign is the factor whose update is a negation
+            sign, u1 = (a, c) if any(strip(fold_std_ops(d))[0] == "unop" for d in dd(a)[1]) else (c, a)
+            u = [strip(d) for d in dd(u1)[1]]
+            # u := u1 in the loop: find the variable that u1's remainder is taken from
+            r1 = strip(fold_std_ops(lit(dd(u1)[1][0]))) if len(dd(u1)[1]) == 1 else None
+            r1 = strip(norm(b.def_origin(r1), g)) if r1 is not None and r1[0] == "local" and len(b.all_defs_origins(r1[1])) == 1 else r1
+            r1 = strip(fold_std_ops(lit(r1))) if r1 is not None else None
+            if not (r1 is not None and r1[0] == "binop" and r1[1] == "Rem" and strip(r1[3]) == u1 and strip(r1[2])[0] == "local"):
+                bad = "u1 is not replaced by the remainder of u by u1: %s" % (show(r1, 1)[:50] if r1 else None)
+            else:
+                uu = strip(r1[2])
+                vv = [strip(d) for d in dd(v1)[0]]
+                v = None
+                for cand in [x for x in subterms(fold_std_ops(lit(dd(v1)[1][0]))) if isinstance(x, tuple) and x and x[0] == "local"]:
+                    if cand not in (uu, u1, v1, sign) and len(b.all_defs_origins(cand[1])) == 2:
+                        v = cand
+                if v is None:
+                    # v1_next is a temporary: expand it
+                    t_ = fold_std_ops(lit(expand_single_defs(b, dd(v1)[1][0], g)))
+                    for cand in [x for x in subterms(t_) if isinstance(x, tuple) and x and x[0] == "local"]:
+                        if cand not in (uu, u1, v1, sign) and len(b.all_defs_origins(cand[1])) == 2:
+                            v = cand
+                if v is None:
+                    bad = "the cofactor pair (v, v1) was not found"
+                else:
+                    carried = (uu, u1, v, v1, sign)
+    n = 0
+    if not bad:
+        def expand(tm, depth=0):
+            def f(x):
+                if x[0] == "local" and x not in carried and depth < 6:
+                    ds = b.all_defs_origins(x[1])
+                    if len(ds) == 1:
+                        return expand(norm(ds[0][1], g), depth + 1)
+                return None
+            return map_term(tm, f)
+        lit = lambda t: map_term(t, lambda y: y[2][0] if is_call(y, "From::from") and len(y[2]) == 1 and strip(y[2][0])[0] == "int" else (strip(y[2][0]) if is_call(y, "Clone::clone") else None))
+        loops = natural_loops(b)
+        lb = set()
+        for h__, bl_ in loops:
+            lb |= set(bl_)
+        defs = {}
+        for x in carried:
+            ds = [(dbb, norm(d, g)) for dbb, d in b.all_defs_origins(x[1])]
+            defs[x] = ([d for dbb, d in ds if dbb not in lb], [d for dbb, d in ds if dbb in lb])
+        if not all(len(defs[x][0]) == 1 and len(defs[x][1]) == 1 for x in carried):
+            bad = "the five loop variables are not each initialised once and updated once per iteration"
+        else:
+            init = [eval_term_env(strip(fold_std_ops(lit(expand(defs[x][0][0])))), {s_: 17, h_: 101}) for x in carried]
+            if init != [101, 17, 0, 1, 1]:
+                bad = "for s = 17, h = 101 the initial state (u, u1, v, v1, sign) is %s, not (101, 17, 0, 1, 1)" % init
+        if not bad:
+            late = overwritten_reads(b, lb, carried)
+            if late:
+                nm = lambda l: b.debug.get(l, "_%d" % l)
+                bad = "the new value of %s is computed from %s after %s has been overwritten in the same iteration (%s)" % (nm(late[0][0]), nm(late[0][1]), nm(late[0][1]), late[0][2])
+        if not bad:
+            upd = [strip(fold_std_ops(lit(expand(defs[x][1][0])))) for x in carried]
+            rnd = random.Random(5)
+            for _ in range(400):
+                h = rnd.choice((101, 1009, 10007))
+                s = rnd.randint(1, h - 1)
+                sg = rnd.choice((1, -1))
+                vv, vv1 = rnd.randint(0, 40), rnd.randint(1, 40)
+                uv1 = (sg * s * vv1) % h + rnd.randint(0, 2) * h
+                uv = (-sg * s * vv) % h + rnd.randint(0, 2) * h
+                if uv1 == 0:
+                    continue
+                new = [eval_term_env(e, dict(zip(carried, (uv, uv1, vv, vv1, sg)))) for e in upd]
+                if any(x is None for x in new):
+                    bad = "the update expressions cannot be evaluated: %s" % [show(e, 1)[:50] for e, x in zip(upd, new) if x is None][:1]
+                    break
+                nu, nu1, nv, nv1, nsg = new
+                n += 1
+                st = "(u, u1, v, v1, sign) = %s with s = %d, h = %d" % ((uv, uv1, vv, vv1, sg), s, h)
+                if (nu1 - nsg * s * nv1) % h or (nu + nsg * s * nv) % h:
+                    bad = "the step does not keep u1 = sign*s*v1, u = -sign*s*v (mod h): from %s it yields %s" % (st, tuple(new))
+                elif nu != uv1 or nv != vv1 or nsg != -sg:
+                    bad = "the step does not shift (u, v) := (u1, v1) and flip the sign: from %s it yields %s" % (st, tuple(new))
+                elif not (0 <= nu1 < uv1):
+                    bad = "the step does not shrink u1: from %s it yields u1 = %d" % (st, nu1)
+                if bad:
+                    break
+    ctx.ob("T7-rational-reconstruction", b.name, "init / step / result", "ok" if not bad and n else "violation",
+           "(h, s, 0, 1, 1); congruences, shift, sign flip and decrease hold on %d sampled states; result (sign * u1) / v1" % n if not bad and n else (bad or "nothing evaluated"))
+    if carried:
+        u1 = carried[1]
+        badx = None
+        nx = 0
+        for hh, blocks in natural_loops(b):
+            for (x1, x2), atoms in loop_exit_atoms(b, hh, blocks, g):
+                nx += 1
+                for v in (0, 3, 10, 11, 50):
+                    vals = [eval_atom_env(at, {u1: v, h_: 101}) for at in atoms]
+                    vals = [x for x in vals if x is not None]
+                    if not vals or all(vals) != (v * v <= 101):
+                        badx = "the loop is not left exactly when u1^2 <= h (u1 = %d, h = 101: %s)" % (v, vals)
+        ctx.ob("T7-rational-reconstruction", b.name, "exit", "ok" if nx >= 1 and not badx else "violation",
+               "the loop ends exactly when u1^2 <= h (numerator below sqrt(h))" if nx >= 1 and not badx else (badx or "no loop exit"))
 
 
 def _gcdx(a, b):
